@@ -1828,3 +1828,11 @@ def run(status, changed, fns):
     except Exception as ex:      # never fatal for the functions above; recorded as a refusal
         status["failed"]["conv"] = f"internal: {type(ex).__name__}: {ex}"
     # ---- END hook BT5
+
+    # ---- BEGIN BT6 hook: core loops of polynomial.rs (tools/rs2lean_poly.py -> TF/Gen/PolyLoops.lean)
+    try:
+        import rs2lean_poly
+        rs2lean_poly.run(status, changed, read_src)
+    except Exception as ex:      # never fatal for the functions above; recorded as a refusal
+        status["failed"]["poly"] = f"internal: {type(ex).__name__}: {ex}"
+    # ---- END BT6 hook
